@@ -395,7 +395,12 @@ class HistoryRunner:
             if cex != mex:
                 extra = sorted((cex - mex).elements())
                 missing = sorted((mex - cex).elements())
-                self.violate(getattr(self, "execset_prop", "C02"), "exec-set", dict(ctx, extra=extra, missing=missing),
+                prop = getattr(self, "execset_prop", "C02")
+                if nested and not missing:
+                    prop = "C02"   # the nested-checksum over-build (D12) is C02/C03's subject, nobody else's
+                if not missing and getattr(self, "execset_extra_prop", None):
+                    prop = self.execset_extra_prop   # an over-build is not this property's subject
+                self.violate(prop, "exec-set", dict(ctx, extra=extra, missing=missing),
                              {"symptom": "extra" if extra and not missing else
                               ("missing" if missing and not extra else "both"),
                               "nested_csum": bool(nested and not missing)})
